@@ -1,6 +1,10 @@
 import GffProofs.Props.C07
+import GffProofs.Props.C07Line
 open GffProofs GffProofs.C07
 #print axioms split_join
 #print axioms infer_render
 #print axioms reconstruct_render
 #print axioms print_parse_render_attrs
+#print axioms parse_render_line
+#print axioms print_parse_render
+#print axioms nonstrict_spaces
